@@ -476,7 +476,6 @@ where
         // But the original `set_rule_ids` invalidates indexes.  In the spirit of keeping that
         // behavior consistent, this also returns the span.
         let mut missing_from_parser_idxs = Vec::new();
-        let mut rules_with_names = 0;
         for (i, r) in self.rules.iter_mut().enumerate() {
             if let Some(n) = r.name() {
                 match rule_ids_map.get(n) {
@@ -486,7 +485,6 @@ where
                         missing_from_parser_idxs.push(i);
                     }
                 }
-                rules_with_names += 1;
             }
         }
 
@@ -500,26 +498,24 @@ where
             Some(mfp)
         };
 
-        let missing_from_lexer =
-            if rules_with_names - missing_from_parser_idxs.len() == rule_ids_map.len() {
-                None
-            } else {
-                Some(
-                    rule_ids_map
-                        .keys()
-                        .cloned()
-                        .collect::<HashSet<&str>>()
-                        .difference(
-                            &self
-                                .rules
-                                .iter()
-                                .filter_map(|x| x.name())
-                                .collect::<HashSet<&str>>(),
-                        )
-                        .cloned()
+        // Comparing the number of named rules that matched with `rule_ids_map.len()` would only
+        // tell us that there are as many of one as of the other: rules can share a name.
+        let missing_from_lexer = {
+            let mfl = rule_ids_map
+                .keys()
+                .cloned()
+                .collect::<HashSet<&str>>()
+                .difference(
+                    &self
+                        .rules
+                        .iter()
+                        .filter_map(|x| x.name())
                         .collect::<HashSet<&str>>(),
                 )
-            };
+                .cloned()
+                .collect::<HashSet<&str>>();
+            if mfl.is_empty() { None } else { Some(mfl) }
+        };
 
         (missing_from_lexer, missing_from_parser)
     }
